@@ -9,6 +9,7 @@ encoders).  Only property theorems live here; helper lemmas are in `Lemmas/Filte
 -/
 import PdfVerif.Lemmas.FiltersPred
 import PdfVerif.Lemmas.FiltersCodec
+import PdfVerif.Lemmas.FiltersChain
 
 namespace PdfVerif.Props.C03
 open PdfVerif PdfVerif.Filters PdfVerif.FilterEnc PdfVerif.Gen.Filters
@@ -136,5 +137,123 @@ theorem ahx_rt (cs : List Nat) (tail : Nat) (x : Bytes) : asciihexdecode (ahxEnc
       exact unhexlify_digits cs x
 
 example : asciihexdecode (ahxEnc [5, 30, 2] 2 [0xAB, 0x00, 0xF0]) = .ok [0xAB, 0x00, 0xF0] := by decide
+
+/-! ## Filter chains
+
+A chain is a list of stages; a stage is a pipeline entry `(filter name, DecodeParms)` together
+with a relation "`z` is an encoding of `y` for this entry" and the proof that ONE iteration of
+`PDFStream.decode`'s loop inverts it.  `chain_rt` composes any number of stages; the
+`stage_*` theorems below provide the stages (every filter name of the regenerated
+`LITERALS_*` tuples, i.e. full and abbreviated names, with every predictor setting). -/
+
+structure Stage (inflate : Bytes → Bytes) where
+  filt : Bytes × Option Parms
+  Encodes : Bytes → Bytes → Prop
+  rt : ∀ y z, Encodes y z → decodeStep inflate filt z = .ok y
+
+/-- `ChainEncodes stages x z`: `z` is what a stream holds when payload `x` is encoded for the
+`Filter` array `stages` (innermost = last stage first). -/
+inductive ChainEncodes {inflate : Bytes → Bytes} : List (Stage inflate) → Bytes → Bytes → Prop
+  | nil (x : Bytes) : ChainEncodes [] x x
+  | cons (s : Stage inflate) (ss : List (Stage inflate)) (x y z : Bytes) :
+      ChainEncodes ss x y → s.Encodes y z → ChainEncodes (s :: ss) x z
+
+/-- Chains of ANY length decode to the original payload. -/
+theorem chain_rt {inflate : Bytes → Bytes} (stages : List (Stage inflate)) (x z : Bytes)
+    (h : ChainEncodes stages x z) :
+    decodeChain inflate (stages.map (·.filt)) z = .ok x := by
+  induction h with
+  | nil x => rfl
+  | cons s ss x y z _ hs ih =>
+    simp only [List.map_cons, decodeChain, s.rt y z hs, ih]
+
+/-- … and so does `PDFStream.decode` for the `Filter` array and `DecodeParms` array of the chain. -/
+theorem stream_chain_rt {inflate : Bytes → Bytes} (stages : List (Stage inflate)) (x z : Bytes)
+    (h : ChainEncodes stages x z) :
+    streamDecode inflate (.list (stages.map (·.filt.1))) (.list (stages.map (·.filt.2))) z = .ok x := by
+  have hz : ∀ l : List (Stage inflate), List.zip (l.map (·.filt.1)) (l.map (·.filt.2)) = l.map (·.filt) := by
+    intro l
+    induction l with
+    | nil => rfl
+    | cons s ss ih => simp only [List.map_cons, List.zip_cons_cons, ih]
+  unfold streamDecode getFilters
+  cases stages with
+  | nil => cases h; rfl
+  | cons s ss =>
+    simp only [List.map_cons, List.isEmpty_cons, Bool.false_eq_true, if_false]
+    have := chain_rt (s :: ss) x z h
+    have hz' := hz (s :: ss)
+    simp only [List.map_cons] at this hz'
+    rw [hz']; exact this
+
+/-- `z` encodes `y` under predictor parameters `pr`. -/
+inductive PredEncodes : Option Parms → Bytes → Bytes → Prop
+  | none (y : Bytes) : PredEncodes none y y
+  | noPredictor (p : Parms) (y : Bytes) (h : p.predictor = none ∨ p.predictor = some 1) : PredEncodes (some p) y y
+  | tiff (p : Parms) (rows : List Bytes) (hp : p.predictor = some 2) (hb : p.bpc.getD 8 = 8)
+      (hc : 0 < p.colors.getD 1) (hw : 0 < p.columns.getD 1)
+      (hrows : ∀ r ∈ rows, r.length = p.columns.getD 1 * p.colors.getD 1) :
+      PredEncodes (some p) rows.flatten (tiffEnc (p.colors.getD 1) rows)
+  | png (p : Parms) (pred : Nat) (rows : List Bytes) (fts : List Nat) (hp : p.predictor = some pred) (h10 : 10 ≤ pred)
+      (hb : p.bpc.getD 8 = 8 ∨ p.bpc.getD 8 = 1)
+      (hrows : ∀ r ∈ rows, r.length = pngNbytes (p.colors.getD 1) (p.columns.getD 1) (p.bpc.getD 8))
+      (hlen : fts.length = rows.length) (hfts : ∀ f ∈ fts, f ≤ 4) :
+      PredEncodes (some p) rows.flatten (pngEnc (p.colors.getD 1) (p.columns.getD 1) (p.bpc.getD 8) fts rows)
+
+/-- Predictor dispatch of `PDFStream.decode`: absent, `Predictor 1`, TIFF (2) and PNG (>= 10) with
+explicit or defaulted `Colors`/`Columns`/`BitsPerComponent`. -/
+theorem predictor_rt (pr : Option Parms) (y z : Bytes) (h : PredEncodes pr y z) : applyPredictor pr z = .ok y := by
+  cases h with
+  | none => rfl
+  | noPredictor p y h =>
+    rcases h with h | h <;> simp [applyPredictor, h]
+  | tiff p rows hp hb hc hw hrows =>
+    simp only [applyPredictor, hp]
+    have h1 : ((2 : Nat) == 1) = false := rfl
+    have h2 : ((2 : Nat) == 2) = true := rfl
+    simp only [h1, h2, Bool.false_eq_true, if_false, if_true, hb]
+    exact tiff_rt _ _ hc hw rows hrows
+  | png p pred rows fts hp h10 hb hrows hlen hfts =>
+    simp only [applyPredictor, hp]
+    have h1 : (pred == 1) = false := by simp; omega
+    have h2 : (pred == 2) = false := by simp; omega
+    simp only [h1, h2, Bool.false_eq_true, if_false, ge_iff_le, h10, if_true]
+    exact png_rt _ _ _ hb rows fts hrows hlen hfts
+
+/-- ASCIIHex stage (either name), any predictor setting. -/
+def stageAhx (inflate : Bytes → Bytes) (name : Bytes) (hn : name ∈ LITERALS_ASCIIHEX_DECODE) (pr : Option Parms) :
+    Stage inflate where
+  filt := (name, pr)
+  Encodes y z := ∃ u cs tail, PredEncodes pr y u ∧ z = ahxEnc cs tail u
+  rt := by
+    rintro y z ⟨u, cs, tail, hp, rfl⟩
+    rw [decodeStep_ahx inflate name pr _ hn, ahx_rt]
+    exact predictor_rt pr y u hp
+
+/-- RunLength stage (either name): any valid segmentation. -/
+def stageRl (inflate : Bytes → Bytes) (name : Bytes) (hn : name ∈ LITERALS_RUNLENGTH_DECODE) (pr : Option Parms) :
+    Stage inflate where
+  filt := (name, pr)
+  Encodes y z := ∃ segs eod, (∀ s ∈ segs, s.valid = true) ∧ PredEncodes pr y (rlFlat segs) ∧ z = rlEnc segs eod
+  rt := by
+    rintro y z ⟨segs, eod, hv, hp, rfl⟩
+    rw [decodeStep_rl inflate name pr _ hn, rl_rt segs eod hv]
+    exact predictor_rt pr y _ hp
+
+/-- Flate stage (either name): zlib is an abstract pair with `inflate (deflate u) = u`. -/
+def stageFl (inflate deflate : Bytes → Bytes) (hz : ∀ u, inflate (deflate u) = u) (name : Bytes)
+    (hn : name ∈ LITERALS_FLATE_DECODE) (pr : Option Parms) : Stage inflate where
+  filt := (name, pr)
+  Encodes y z := ∃ u, PredEncodes pr y u ∧ z = deflate u
+  rt := by
+    rintro y z ⟨u, hp, rfl⟩
+    rw [decodeStep_fl inflate name pr _ hn, hz]
+    exact predictor_rt pr y u hp
+
+/-- Non-vacuity: `[/AHx /Fl]` with a PNG predictor (2 colours, Paeth on the first row) on the Flate
+stage, for the identity "compression". -/
+example : streamDecode id (.list [[65, 72, 120], [70, 108]])
+    (.list [none, some { predictor := some 12, colors := some 2, columns := some 2, bpc := none }])
+    (ahxEnc [1, 2] 0 (pngEnc 2 2 8 [4] [[1, 2, 3, 4]])) = .ok [1, 2, 3, 4] := by decide
 
 end PdfVerif.Props.C03
